@@ -325,11 +325,35 @@ def finish(res):
     return rc
 
 
+class RepoCrash(Exception):
+    """a driver process died in a goroutine that was running code of the repository under test"""
+    def __init__(self, msg, site, driver, tail):
+        super().__init__(msg)
+        self.msg, self.site, self.driver, self.tail = msg, site, driver, tail
+
+
+def repo_crash(errtxt):
+    """(message, site) when the process was killed by a panic or a fatal runtime error (e.g. concurrent map writes) raised in
+    a goroutine whose stack holds frames of the repository under test; None otherwise (harness fault, OOM, timeout ...)"""
+    m = re.search(r"^(panic|fatal error): (.*)$", errtxt, re.M)
+    if not m:
+        return None
+    blocks = errtxt[m.start():].split("\n\ngoroutine ")
+    first = blocks[0] + (blocks[1] if len(blocks) > 1 else "")
+    if "github.com/mholt/caddy-l4/" not in first:
+        return None
+    site = re.search(r"/((?:layer4|modules/\w+)/[\w.]+\.go:\d+)", first)
+    return m.group(1) + ": " + m.group(2), (site.group(1) if site else "?")
+
+
 def run_driver(binpath, args, timeout=1800, env=None, ok_codes=(0,)):
     e = dict(os.environ)
     if env:
         e.update(env)
     p = subprocess.run([binpath] + args, capture_output=True, text=True, timeout=timeout, env=e)
     if p.returncode not in ok_codes:
+        rc = repo_crash(p.stderr)
+        if rc:
+            raise RepoCrash(rc[0], rc[1], " ".join(args[:1]), p.stderr[-3000:])
         raise Inconclusive(f"driver {' '.join(args[:1])} failed rc={p.returncode}:\n{p.stdout[-3000:]}\n{p.stderr[-3000:]}")
     return p
